@@ -42,6 +42,18 @@ def values(n, vclass, lo=0.5, hi=9.0):
         return rng.uniform(0.01, 0.99, n)
     if vclass == "const":
         return np.full(n, 3.0)
+    if vclass == "romap":
+        # the values in a file mapped read-only: the pages cannot be written
+        import tempfile
+        f = tempfile.NamedTemporaryFile(prefix="verif_c05_", suffix=".dat", delete=False)
+        f.close()
+        w = np.memmap(f.name, dtype=np.float64, mode="w+", shape=(max(n, 1),))
+        w[:] = np.random.default_rng(n).uniform(0.05, 0.95, max(n, 1))[::-1]
+        w.flush()
+        del w
+        a = np.memmap(f.name, dtype=np.float64, mode="r", shape=(max(n, 1),))
+        os.unlink(f.name)
+        return a[:n]
     raise ValueError(vclass)
 
 
